@@ -177,7 +177,7 @@ def op_case(draw, mode):
         sh = tuple(sizes[x] for x in ls)
         return (es + sh) if e == 'start' else (sh + es) if e == 'end' else sh
 
-    dt = draw(st.sampled_from(['float32', 'float64'])) if mode == 'x64' else 'float32'
+    dt = draw(st.sampled_from(['float32', 'float64', 'int32'])) if mode == 'x64' else draw(st.sampled_from(['float32', 'float32', 'int32']))
     nleaves = draw(st.sampled_from([1, 1, 2, 3]))
     per_leaf = nleaves > 1 and draw(st.booleans())
     default = draw(st.integers(0, 3)) == 0
@@ -220,7 +220,7 @@ def op_case(draw, mode):
     if not per_leaf:
         blocks_shapes = blocks_shapes[:1]
     layout = 'leaf' if nleaves == 1 else draw(st.sampled_from(['tuple', 'list', 'dict']))
-    return {'kind': 'op', 's': s, 'default': default and draw(st.booleans()), 'leaves': leaves, 'blocks_shapes': blocks_shapes, 'per_leaf': per_leaf,
+    return {'kind': 'op', 's': s, 'default': default and draw(st.booleans()), 'half_blocks': draw(st.booleans()), 'leaves': leaves, 'blocks_shapes': blocks_shapes, 'per_leaf': per_leaf,
             'layout': layout, 'dtype': dt, 'seed': draw(st.integers(0, 50))}
 
 
@@ -300,8 +300,13 @@ def check(recipe, mode):
     else:
         op = must_not_raise('construct', D, blocks, St.to_jax(S), s)
     sc = s.replace(' ', '')
+    if recipe.get('half_blocks'):
+        Bs = [b + 0.5 for b in Bs]  # non-integer coefficients: an integer leaf must be promoted, not the blocks truncated
+        blocks = St.build_value(cont, [Bs[t] for t in order]) if recipe['per_leaf'] else jnp.asarray(Bs[0], jnp.float32)
+        op = D(blocks, St.to_jax(S)) if recipe.get('default') else D(blocks, St.to_jax(S), s)
     want = [np.einsum(sc, Bs[t] if recipe['per_leaf'] else Bs[0], xs[t]) for t in range(len(leaves))]
-    out_S = _tree(recipe['layout'], [St.leaf(w.shape, dt) for w in want])
+    odt = 'float32' if dt == 'int32' else dt  # einsum of float32 blocks with an int32 leaf is float32
+    out_S = _tree(recipe['layout'], [St.leaf(w.shape, odt) for w in want])
     declared = must_not_raise('out_structure', op.out_structure)
     if not St.same_structure(out_S, declared):
         raise Violation('out_structure', f'{s!r}: declared {St.describe(declared)}; numpy gives {St.describe(St.to_jax(out_S))}')
@@ -312,11 +317,14 @@ def check(recipe, mode):
     if not St.same_structure(out_S, y) or not np.array_equal(got, w):
         raise Violation('mv-value', f'{s!r}: op(x) != np.einsum per leaf')
     T = must_not_raise('transpose', lambda: op.T)
-    if not St.same_structure(out_S, T.in_structure()) or not St.same_structure(S, T.out_structure()):
+    # (for integer leaves the adjoint necessarily lives in the floating dtype of the output: shapes are compared, the
+    # input dtype cannot come back)
+    S_back = S if dt != 'int32' else _tree(recipe['layout'], [St.leaf(lf['xshape'], odt) for lf in leaves])
+    if not St.same_structure(out_S, T.in_structure()) or not St.same_structure(S_back, T.out_structure()):
         raise Violation('T-structure', f'{s!r}: structures of the transpose are not swapped')
     ys = [_ints(wt.shape, recipe['seed'] + 23 + t) for t, wt in enumerate(want)]
     z = must_not_raise('T-mv', T.mv, St.build_value(out_S, [ys[t] for t in order]))
-    if not St.same_structure(S, z):
+    if not St.same_structure(S_back, z):
         raise Violation('T-mv-structure', f'{s!r}: op.T(y) has structure {St.describe(z)}')
     lhs = float(sum((want[t] * ys[t]).sum() for t in range(len(leaves))))
     rhs = float(St.flat_of_value(z) @ np.concatenate([xs[t].reshape(-1) for t in order]))
@@ -335,6 +343,8 @@ def check(recipe, mode):
         classes.append('batch_letter')
     if ' ' in s:
         classes.append('spaces')
+    if dt == 'int32':
+        classes.append('integer_leaves')
     if sc == 'ij...,j...->i...':
         classes.append('default_subscripts')
     nontrivial = '...' in s or len(l.replace('...', '')) > 2 or l.replace('...', '')[:2] != 'ij'
